@@ -4,6 +4,7 @@ package interp
 
 import (
 	"fmt"
+	"os"
 	"go/token"
 	"math/big"
 	"regexp"
@@ -99,7 +100,15 @@ func runPath(i *interpreter, solver *Solver, fn *ssa.Function, item workItem, ex
 		}
 		switch r := r.(type) {
 		case pathAbort:
-			res = pc.result(r.kind, r.msg)
+			msg := r.msg
+			if r.kind == "bound" && pc.model != nil && os.Getenv("GOSYM_BOUND_SAMPLE") != "" {
+				var nd []string
+				for _, n := range pc.snapshotNondet() {
+					nd = append(nd, n.Name+"="+n.Val)
+				}
+				msg += " [sample: " + strings.Join(nd, " ") + "]"
+			}
+			res = pc.result(r.kind, msg)
 		case engineFault:
 			res = pc.result("fault", r.msg)
 		case targetPanic:
@@ -306,5 +315,10 @@ func (ex *explorer) absorb(pr *PathResult) {
 	if pr.Sample != nil && len(r.Samples) < 3 && len(pr.Sample) > 0 {
 		r.Samples = append(r.Samples, pr.Sample)
 	}
-	ex.stack = append(ex.stack, pr.Pending...)
+	for _, it := range pr.Pending {
+		if len(ex.stack) > 400 {
+			it.model = nil // bound memory: deep in the stack the witness is recomputed when the item is popped
+		}
+		ex.stack = append(ex.stack, it)
+	}
 }
